@@ -112,7 +112,7 @@ def absNum (v : Option Bytes) : Nat :=
     let ds := match v with
       | 43 :: t => t
       | _ => v
-    match Spec.decimal ds with
+    match Spec.decimalL ds with
     | some n => if n ≤ U64MAX then n else 0
     | none => 0
 
